@@ -51,6 +51,7 @@ PROPS = {
             {'engine': 'verus', 'name': 'next_strategy', 'tier': 'quick', 'role': 'NextStrategy::index'},
             {'engine': 'verus', 'name': 'end_next', 'tier': 'quick', 'role': 'End::next routing contract'},
             {'engine': 'verus', 'name': 'route_next', 'tier': 'quick', 'role': 'RoutingEnd::next: control elements reach every connected replica'},
+            {'engine': 'verus', 'name': 'setup_senders', 'tier': 'quick', 'role': 'End::setup_senders: block_senders partitions the sender indexes into non-empty groups - singletons for All (broadcast), otherwise exactly the senders of one downstream block per group in sorted-endpoint order - i.e. End.inv, the precondition of End::next, is now PROVED on the real body (HashMap by its map view, the two iterator chains desugared by declared templates)'},
         ],
         'explanation': 'Verus proof, for any number of senders/groups, that End::next hands a data element to exactly one sender of every '
                        'downstream group (the one at index(m) mod |group|) and to no other, broadcasts Watermark/FlushAndRestart to every sender, '
@@ -67,6 +68,7 @@ PROPS = {
             {'engine': 'verus', 'name': 'route_next', 'tier': 'quick', 'role': 'RoutingEnd::next: first matching route wins, no other route, unmatched dropped, control to every sender'},
             {'engine': 'verus', 'name': 'binary_select', 'tier': 'quick', 'role': 'merge (and the input side of zip / joins): the two-input receiver delivers every batch it reads from either link element by element, in order, wrapped in the variant of its side (read_step / out_rel); one side is read per call'},
             {'engine': 'verus', 'name': 'merge', 'tier': 'quick', 'role': 'Stream::merge: the unwrapping closure keeps every element of either side unchanged and drops only the side end markers (with binary_select and chain_ops: multiset union)'},
+            {'engine': 'verus', 'name': 'setup_senders', 'tier': 'quick', 'role': 'End::setup_senders: block_senders partitions the sender indexes into non-empty groups - singletons for All (broadcast), otherwise exactly the senders of one downstream block per group in sorted-endpoint order - i.e. End.inv, the precondition of End::next, is now PROVED on the real body (HashMap by its map view, the two iterator chains desugared by declared templates)'},
         ],
         'explanation': 'End::next sends one copy of every element to each downstream block group (split) and, with singleton groups (All), to every replica (broadcast).',
         'assumptions': [],
